@@ -68,6 +68,9 @@ var urlFrags = []string{
 var urlPrefixes = []string{"http://e.x/", "http://e.x", "/p", "mailto:a@e.x", "//e.x/p"}
 var urlTailFrags = []string{"?", "#", "/", ".", ":", "@", "a", "=", "&amp;", "%", "%3a", "%0a", "%20", " ", "\u00a0", "\u2003", "\t", "\n", "\\", "é", "[", "]", "&#0;", "\x7f", "+", "%2F", "<"}
 
+// dataURIFrags: the data: URI fragment alphabet (C03, C14).
+var dataURIFrags = []string{"data:", "DATA:", "image/png", "image/svg+xml", "image/gif", "text/html", ";base64,", ";base64", ",", "iVBORw0KGgo=", "AAAA", "AA", " ", "\n", "\r", "\t", "#", "?", "x", "<script>", ";charset=utf-8", "%20", "&#10;", "="}
+
 // urlBytes: byte alphabet for shallow byte-exhaustive URL strings.
 var urlBytes = []byte{'j', 's', ':', '/', ' ', '\t', '\n', '%', '\\', '#', '?', 0x01, 'a'}
 
